@@ -16,8 +16,8 @@ VERIF = os.path.dirname(HERE)
 
 # failing function (module prefix) -> drivers
 DRIVERS = {
-    'utf8': ['decoder', 'scalars', 'utils'], 'input': ['decoder', 'scalars'], 'utils': ['utils', 'autocomplete', 'editor'],
-    'token': ['token'], 'arguments': ['token'], 'command': ['token', 'cli'], 'help': ['token', 'cli'],
+    'utf8': ['decoder', 'scalars', 'utils'], 'input': ['decoder', 'scalars'], 'utils': ['utils', 'scalars', 'autocomplete', 'editor'],
+    'token': ['token'], 'arguments': ['token', 'scalars', 'derive_parse'], 'command': ['token', 'cli'], 'help': ['token', 'scalars', 'cli'],
     'editor': ['editor', 'cli'], 'history': ['history', 'cli'], 'autocomplete': ['autocomplete', 'cli'],
     'tmpl_autocomplete': ['cli', 'derive_hidden'], 'tmpl_group_autocomplete': ['derive_hidden', 'cli'], 'tmpl_group_help': ['derive_fail', 'derive_help', 'cli'], 'tmpl_command_help': ['derive_fail', 'derive_help'], 'writer': ['writer', 'cli'], 'cli': ['cli'], 'builder': ['cli'], 'service': ['cli'],
     'buffer': ['editor', 'history'], 'codes': ['cli'],
@@ -243,18 +243,23 @@ def search_modules(pid, modules, seed, work, units, features=('history', 'autoco
     if binary is None:
         raise RuntimeError('; '.join(log[-2:]))
     tried = []
+    names = []
     for mod in modules:
         for d in DRIVERS.get(mod, []):
             name = '%s:%s' % (d, pid) if d in FILTERED else d
-            if name in tried:
-                continue
-            tried.append(name)
-            res = run_driver(binary, name, seed)
-            if res.get('found') and relevant(pid, res, units):
-                res.update({'seed': seed or 1, 'features': list(features), 'drivers_tried': tried,
-                            'how': 'replayed on the real code built from the working tree (visibility-only copy): '
-                                   'witness %s %s 20000' % (name, seed or 1)})
-                return res
+            if name not in names:
+                names.append(name)
+    # every module of the library lies on the path of a session: the end-to-end driver filtered to pid is always tried
+    if 'cli:%s' % pid not in names:
+        names.append('cli:%s' % pid)
+    for name in names:
+        tried.append(name)
+        res = run_driver(binary, name, seed)
+        if res.get('found') and relevant(pid, res, units):
+            res.update({'seed': seed or 1, 'features': list(features), 'drivers_tried': tried,
+                        'how': 'replayed on the real code built from the working tree (visibility-only copy): '
+                               'witness %s %s 20000' % (name, seed or 1)})
+            return res
     return None
 
 
